@@ -657,25 +657,27 @@ pub fn run_property(prop: &PropertyDef, tier: Tier, seed: u64) -> RunResult {
     RunResult { exit }
 }
 
-/// Families that get a libFuzzer campaign in the thorough tier, with the number of runs.
+/// Families that get a libFuzzer campaign in the thorough tier, with the number of runs (the
+/// ASan build executes only ~50-500 cases per second, each with its full oracle: 60000 runs are
+/// 2-20 minutes; `PVH_FUZZ_RUNS` overrides).
 fn fuzz_plan(prop: &str) -> Vec<(&'static str, u64)> {
     let runs = std::env::var("PVH_FUZZ_RUNS").ok().and_then(|s| s.parse::<u64>().ok());
     let plan: Vec<(&'static str, u64)> = match prop {
-        "C01" => vec![("all-kinds", 300_000), ("lists-dense", 300_000)],
-        "C02" => vec![("tree", 150_000), ("flat", 150_000)],
-        "C03" => vec![("tree-compound", 200_000), ("relations", 150_000)],
-        "C08" => vec![("fd-heads", 150_000)],
-        "C09" => vec![("diseq-chains", 150_000), ("fd-multi-binding", 100_000)],
-        "C10" => vec![("prefix-branches", 150_000), ("late-domains", 150_000)],
-        "C12" => vec![("everyg", 150_000)],
-        "C16" => vec![("fd-full", 300_000)],
-        "C17" => vec![("fd-full", 300_000)],
-        "C18" => vec![("window", 500_000)],
-        "C19" => vec![("clpz", 500_000), ("branches", 300_000)],
-        "C20" => vec![("tree-compound", 150_000)],
-        "C21" => vec![("terms", 400_000)],
-        "C22" => vec![("tree", 200_000), ("late-duplicates", 200_000)],
-        "C23" => vec![("tree-large", 100_000), ("fd-large", 100_000), ("search-large", 60_000)],
+        "C01" => vec![("all-kinds", 60_000), ("lists-dense", 60_000)],
+        "C02" => vec![("tree", 60_000), ("flat", 60_000)],
+        "C03" => vec![("tree-compound", 60_000), ("relations", 60_000)],
+        "C08" => vec![("fd-heads", 60_000)],
+        "C09" => vec![("diseq-chains", 60_000), ("fd-multi-binding", 60_000)],
+        "C10" => vec![("prefix-branches", 60_000), ("late-domains", 60_000)],
+        "C12" => vec![("everyg", 60_000)],
+        "C16" => vec![("fd-full", 60_000)],
+        "C17" => vec![("fd-full", 60_000)],
+        "C18" => vec![("window", 60_000)],
+        "C19" => vec![("clpz", 60_000), ("branches", 60_000)],
+        "C20" => vec![("tree-compound", 60_000)],
+        "C21" => vec![("terms", 60_000)],
+        "C22" => vec![("tree", 60_000), ("late-duplicates", 60_000)],
+        "C23" => vec![("tree-large", 60_000), ("fd-large", 60_000), ("search-large", 60_000)],
         _ => vec![],
     };
     plan.into_iter().map(|(f, n)| (f, runs.unwrap_or(n))).collect()
